@@ -55,6 +55,21 @@ theorem closed_reachable_safe {L : Type} [DecidableEq L] (p : List (Prim L)) (hc
   · intro hk; rw [hk] at this; exact this
   · intro hk; rw [hk] at this; exact this
 
+/-- an unconditional `Goto` (`Prim.jump`, expression = the constant True) never falls through: the step does not depend on
+    the outcome of any condition, and on a closed program it lands right behind the (last) label it names -/
+theorem jump_unconditional {L : Type} [DecidableEq L] (p : List (Prim L)) (hc : Closed p) (h : Head L) (l : L)
+    (hp : p[h.pos]? = some (.jump l)) :
+    step p h true = step p h false ∧
+    ∃ i, lookupLabel p l = some i ∧ p[i]? = some (.label l) ∧ step p h true = .next [{ h with pos := i + 1 }] := by
+  obtain ⟨i, h1, _, h3, _⟩ := lookupLabel_of_mem p l (hc.targets _ (List.mem_of_getElem? hp) l (by simp [Prim.targets]))
+  refine ⟨by unfold step; simp [hp], i, h1, h3, ?_⟩
+  unfold step; simp [hp, h1]
+
+/-- non-vacuity: the loop template (finite fact) -/
+example : (step ([.label "b", .goto "e", .jump "b", .label "e"] : List (Prim String)) ⟨2, [], []⟩ false) = .next [⟨1, [], []⟩] ∧
+    (step ([.label "b", .goto "e", .jump "b", .label "e"] : List (Prim String)) ⟨1, [], []⟩ false) = .next [⟨2, [], []⟩] := by
+  decide
+
 /-- a jump lands right behind the label it names -/
 theorem closed_jump_lands {L : Type} [DecidableEq L] (p : List (Prim L)) (hc : Closed p) (e : Prim L) (he : e ∈ p)
     (l : L) (hl : l ∈ e.targets) : ∃ i, lookupLabel p l = some i ∧ i + 1 ≤ p.length ∧ p[i]? = some (.label l) := by
@@ -93,13 +108,13 @@ example : whenElseInLoop =
   [.label "wb", .goto "we",
    .beginScope "s", .fork "cf" ["init_a"],
    .label "init_a", .catchFail (some "fail_a"), .fork "gf" ["group_a_0"],
-   .label "group_a_0", .specOp "match" false false, .goto "case_a",
-   .label "case_a", .merge "cf", .catchFail none, .endScope "s", .specOp "send" false false, .goto "when_end",
-   .label "fail_a", .waitHeads 1, .catchFail none, .goto "when_else",
-   .label "when_else", .waitHeads 1, .goto "when_else_stmt",
+   .label "group_a_0", .specOp "match" false false, .jump "case_a",
+   .label "case_a", .merge "cf", .catchFail none, .endScope "s", .specOp "send" false false, .jump "when_end",
+   .label "fail_a", .waitHeads 1, .catchFail none, .jump "when_else",
+   .label "when_else", .waitHeads 1, .jump "when_else_stmt",
    .label "when_else_stmt", .specOp "send" false false,
    .label "when_end",
-   .goto "wb", .label "we"] := rfl
+   .jump "wb", .label "we"] := rfl
 
 /-- The code as it is: the expansion of `when … else` inside `while` passes the (linear) closedness check, and yet
     the head that took the else branch reaches the BeginScope again while still holding the scope —
@@ -129,6 +144,7 @@ theorem scope_safe_partial {L : Type} [DecidableEq L] (p : List (Prim L)) (hns :
       cases c with
       | true => simp only [if_true]; cases lookupLabel p l <;> simp
       | false => simp
+    | jump l => simp only; cases lookupLabel p l <;> simp
     | fork u ls => simp only; cases lookupAll p ls <;> simp
     | abort => simp only; cases h.handlers <;> simp [jumpTo] <;> (rename_i l _; cases lookupLabel p l <;> simp)
     | brk o => cases o <;> simp [jumpTo] <;> (rename_i l; cases lookupLabel p l <;> simp)
@@ -342,7 +358,7 @@ theorem recompile_as_is_counterexample :
     closed (recompile true [.whileS [.ifS [.brk] []]] 1 [none] 0).1 = false ∧
     (recompile true [.whileS [.ifS [.brk] []]] 1 [none] 0).1 =
       [.label ("_while_begin_", 3), .goto ("_while_end_", 3), .goto ("if_end_label_", 5),
-       .brk (some ("_while_end_", 0)), .label ("if_end_label_", 5), .goto ("_while_begin_", 3), .label ("_while_end_", 3)] := by
+       .brk (some ("_while_end_", 0)), .label ("if_end_label_", 5), .jump ("_while_begin_", 3), .label ("_while_end_", 3)] := by
   decide
 
 /-- Both modes: the FIRST compilation of a freshly parsed flow (no label set) is the expansion `Models/Expand.lean`
@@ -470,10 +486,10 @@ example : wfList [.ifS [.whileS [.awaitG [[⟨.flow, false⟩], [⟨.action, tru
 /-- `break` / `continue` are resolved to the labels of the innermost enclosing loop, also through `if` (finite fact) -/
 example : expandFlow [.whileS [.ifS [.brk] [.whileS [.cont]]], .brk] =
     [.label ("_while_begin_", 0), .goto ("_while_end_", 0),
-     .goto ("if_else_body_label_", 1), .brk (some ("_while_end_", 0)), .goto ("if_end_label_", 2), .label ("if_else_body_label_", 1),
-     .label ("_while_begin_", 3), .goto ("_while_end_", 3), .cont (some ("_while_begin_", 3)), .goto ("_while_begin_", 3), .label ("_while_end_", 3),
+     .goto ("if_else_body_label_", 1), .brk (some ("_while_end_", 0)), .jump ("if_end_label_", 2), .label ("if_else_body_label_", 1),
+     .label ("_while_begin_", 3), .goto ("_while_end_", 3), .cont (some ("_while_begin_", 3)), .jump ("_while_begin_", 3), .label ("_while_end_", 3),
      .label ("if_end_label_", 2),
-     .goto ("_while_begin_", 0), .label ("_while_end_", 0), .brk none] := by
+     .jump ("_while_begin_", 0), .label ("_while_end_", 0), .brk none] := by
   decide
 
 /-- non-vacuity of `wfList` and a look at the repaired `when … else` inside a loop: closed, and (finite fact) the path that
